@@ -30,6 +30,10 @@ pub fn consumed_fields(ctx: &mut Ctx, rng: &mut Rng, idx: &mut u64) {
         for j in 0..rng.below(10) {
             fields.push((format!("x-{}", rng.below(4)), format!("v{j}")));
         }
+        // repeated Cookie fields stay separate fields, in place
+        for j in 0..rng.below(4) {
+            if rng.chance(1, 3) { fields.push((rng.pick(&["Cookie", "cookie"]).to_string(), format!("c{j}=v{j}"))); }
+        }
         for i in (1..fields.len()).rev() {
             let j = rng.below(i as u64 + 1) as usize;
             fields.swap(i, j);
@@ -50,6 +54,15 @@ pub fn run_c14r(ctx: &mut Ctx) {
     let mut rng = Rng::new(ctx.seed.wrapping_add(14));
     let mut idx = 0u64;
     consumed_fields(ctx, &mut rng, &mut idx);
+    for nf in [99usize, 100, 101, 150, 300] {
+        let mut h = b"GET /many HTTP/1.1\r\n".to_vec();
+        for j in 0..nf {
+            h.extend_from_slice(format!("h{}: {j}\r\n", j % 7).as_bytes());
+        }
+        h.extend_from_slice(b"content-type: a/b\r\nx-last: z\r\n\r\nTAIL");
+        idx += 1;
+        if ctx.mine(idx) { emit(ctx, "c02", 8192, &[], &h, "eof", &[], 0); }
+    }
 }
 
 pub fn run(ctx: &mut Ctx) {
@@ -127,6 +140,33 @@ pub fn run(ctx: &mut Ctx) {
         }
     }
     consumed_fields(ctx, &mut rng, &mut idx);
+    // fields that servers commonly interpret, with values that would matter if this one did: the target alone decides path and query
+    let known = ["Host", "host", "Connection", "X-Forwarded-Host", "X-Forwarded-Proto", "X-Original-URL", "X-Rewrite-URL", "Forwarded", "Origin", "Referer",
+        "Upgrade", "TE", "Trailer", "Range", "Authorization", "Content-Location", "Location", "Via", "Accept", "User-Agent"];
+    let values = ["example.com/public?", "", "evil.com#", "a b", "example.com:8080", "[::1]:80", "\\x", "/other/path?z=1", "http://h/p?q", "..", "keep-alive", "close", "?x", "#f"];
+    let targets: [&[u8]; 4] = [b"/admin?a=1", b"/admin/delete", b"/", b"/a/b;c=d?e=f&g"];
+    for (ki, k) in known.iter().enumerate() {
+        for (vi, v) in values.iter().enumerate() {
+            let t = targets[(ki + vi) % targets.len()];
+            let mut h = b"GET ".to_vec();
+            h.extend_from_slice(t);
+            h.extend_from_slice(b" HTTP/1.1\r\n");
+            if (ki + vi) % 3 == 0 { h.extend_from_slice(b"x-first: 1\r\n"); }
+            h.extend_from_slice(format!("{k}: {v}\r\n").as_bytes());
+            if vi % 4 == 1 { h.extend_from_slice(format!("{k}: {}\r\n", values[(vi + 3) % values.len()]).as_bytes()); }
+            h.extend_from_slice(b"\r\nTAIL");
+            go!(&h);
+        }
+    }
+    // many fields: 90..260 short ones (all of them must be handed on, in order)
+    for nf in [90usize, 99, 100, 101, 102, 128, 200, 260] {
+        let mut h = b"GET /many HTTP/1.1\r\n".to_vec();
+        for j in 0..nf {
+            h.extend_from_slice(format!("h{j}: {j}\r\n").as_bytes());
+        }
+        h.extend_from_slice(b"Content-Length: 0\r\nAuthorization: last\r\n\r\nTAIL");
+        go!(&h);
+    }
     // every tchar as a one-byte method and field name; every VCHAR/SP/HT inside a value
     for &c in TCHARS {
         let s = [&[c][..], b" / HTTP/1.1\r\n", &[c][..], b": v\r\n\r\n"].concat();
